@@ -70,6 +70,10 @@ func (enc *StreamEncoder) Encode(val interface{}) (err error) {
 	} else {
 		/* copy into io.Writer */
 		var n int
+		// according to standard library, terminate each value with a newline...
+		if enc.Opts&NoEncoderNewline == 0 {
+			*out = append(*out, '\n')
+		}
 		buf := *out
 		for len(buf) > 0 {
 			n, err = enc.w.Write(buf)
@@ -77,11 +81,6 @@ func (enc *StreamEncoder) Encode(val interface{}) (err error) {
 			if err != nil {
 				goto free_bytes
 			}
-		}
-
-		// according to standard library, terminate each value with a newline...
-		if enc.Opts&NoEncoderNewline == 0 {
-			enc.w.Write([]byte{'\n'})
 		}
 	}
 
